@@ -367,6 +367,51 @@ def job_linspline(seed, N=4):
     return obs
 
 
+def job_smooth(seed):
+    """Table::Smooth: end points kept, straight-line data unchanged, inner points become (y[k-1] + 2 y[k] + y[k+1])/4 per pass"""
+    rvc.reset()
+    rel = 'tools/src/libtools/table.cc'
+    fns = rvc.functions(rvc.ast(rel, 'Table::Smooth'))
+    if 'Smooth' not in fns:
+        raise core.Undecided('front end: Table::Smooth not found')
+    fn = fns['Smooth'][0]
+    obs = []
+    F = 'Table::Smooth'
+    for n in (2, 3, 4, 6):
+        for passes in (1, 2):
+            y = symvec('y', n)
+            y0 = [e.v for e in y.flat()]
+            this = {'y_': y, 'x_': symvec('x', n)}
+            ex = Exec({'Nsmooth': passes}, {'size': lambda o=None: n}, {}, this)
+            thrown = False
+            try:
+                ex.stmt(rvc.body_of(fn))
+            except Ret:
+                pass
+            except Thrown:
+                thrown = True
+            tag = 'n%d.pass%d' % (n, passes)
+            bound = '%d points, %d passes' % (n, passes)
+            if n < 2:
+                continue
+            if n == 2:
+                okk = (not thrown) and all(rvc.nf_zero(y.g(i).v - y0[i]) for i in range(n))
+                obs.append(Ob('C12.smooth/%s/two-points' % tag, F, 'a table of two points is left unchanged', 'RVC', 'symbolic execution', core.BOUNDED if okk else core.REFUTED, 0, '', bound=bound, witness=None if okk else {'thrown': thrown}))
+                continue
+            obs.append(rvc.identity('C12.smooth/%s/first' % tag, F, 'first point unchanged', y.g(0).v, y0[0], seed, bound=bound))
+            obs.append(rvc.identity('C12.smooth/%s/last' % tag, F, 'last point unchanged', y.g(n - 1).v, y0[n - 1], seed, bound=bound))
+            al, be = sp.symbols('alpha beta', real=True)
+            line = {y0[k]: al + be * k for k in range(n)}
+            for k in range(1, n - 1):
+                obs.append(rvc.identity('C12.smooth/%s/line%d' % (tag, k), F, 'straight-line data (uniform grid) is left unchanged', y.g(k).v.subs(line), al + be * k, seed, bound=bound))
+                if passes == 1:
+                    obs.append(rvc.identity('C12.smooth/%s/kernel%d' % (tag, k), F, 'one pass: y_k <- (y_{k-1} + 2 y_k + y_{k+1})/4 from the OLD values', y.g(k).v, (y0[k - 1] + 2 * y0[k] + y0[k + 1]) / 4, seed, bound=bound))
+    mfx = [{'name': F, 'file': rel, 'ast_nodes': rvc.node_count(fn)}]
+    for o in obs:
+        o['functions'] = mfx
+    return obs
+
+
 # ------------------------------------------------------------------------------------------------ CCV: getInterval, GenerateGrid
 
 def getinterval_tu(unbounded):
@@ -419,6 +464,59 @@ def job_getinterval(mode):
     return obs
 
 
+def job_grid(which, seed=0):
+    """Spline::GenerateGrid / Table::GenerateGridSpacing over the reals (RVC): the float-to-index conversion enters by its contract
+    (k = trunc(q + 1.00000001), enumerated k = 1..5), the loop then runs k-1 times.  (A CBMC/IEEE version of this contract - loop contract,
+    division, conversion check - did not finish in 15 minutes: one double division is already beyond what SAT discharges here.)"""
+    rvc.reset()
+    if which == 'spline':
+        rel, nm, cls = 'tools/src/libtools/spline.cc', 'GenerateGrid', 'Spline'
+    else:
+        rel, nm, cls = 'tools/src/libtools/table.cc', 'GenerateGridSpacing', 'Table'
+    fns = rvc.functions(rvc.ast(rel, '%s::%s' % (cls, nm)))
+    if nm not in fns:
+        raise core.Undecided('front end: %s::%s not found' % (cls, nm))
+    fn = fns[nm][0]
+    F = '%s::%s' % (cls, nm)
+    mn, mx, h = sp.Symbol('gmin', real=True), sp.Symbol('gmax', real=True), sp.Symbol('gstep', positive=True)
+    obs = []
+    for k in range(1, 6):
+        grid = Mx(0, 1)
+        conv = []
+        def to_int(v, k=k):
+            conv.append(v.v)
+            return k
+        def resize(o, n):
+            grid.r, grid.c = rvc._i(n), 1
+            grid.d = [[D(rvc.fresh('uninit'))] for _ in range(grid.r)]
+        this = {'r_': grid, 'x_': grid}
+        cb = {'to_int': to_int, 'resize': resize}
+        args = {'min': D(mn), 'max': D(mx), 'h': D(h), 'spacing': D(h)}
+        ex = Exec(args, cb, {}, this)
+        ret = None
+        try:
+            ex.stmt(rvc.body_of(fn))
+        except Ret as r:
+            ret = r.v
+        bound = 'grid of %d points (trunc((max-min)/step + 1.00000001) = %d)' % (k, k)
+        tag = '%s.k%d' % (which, k)
+        off = sp.simplify(conv[0] - (mx - mn) / h) if len(conv) == 1 else None
+        okc = off is not None and off.is_Rational and abs(float(off) - 1.00000001) < 1e-12        # the literal 1.00000001 (as a double)
+        obs.append(Ob('C12.grid/%s/size' % tag, F, 'size == trunc((max - min)/step + 1.00000001)', 'RVC', 'normal form', core.BOUNDED if okc and grid.r == k else core.REFUTED, 0, '', bound=bound,
+                      witness=None if okc and grid.r == k else {'converted': str(conv), 'size': grid.r}))
+        if which == 'spline':
+            okr = ret == k or (isinstance(ret, int) and ret == k)
+            obs.append(Ob('C12.grid/%s/return' % tag, F, 'returns the number of grid points', 'RVC', 'symbolic execution', core.BOUNDED if okr else core.REFUTED, 0, str(ret), bound=bound, witness=None if okr else {'ret': str(ret)}))
+        obs.append(rvc.identity('C12.grid/%s/last' % tag, F, 'the last grid point is max exactly', grid.g(k - 1).v, mx, seed, bound=bound))
+        sp_exp = h if which == 'spline' else ((mx - mn) / (k - 1) if k > 1 else None)
+        for i in range(k - 1):
+            obs.append(rvc.identity('C12.grid/%s/point%d' % (tag, i), F, 'grid point i == min + i * %s' % ('step' if which == 'spline' else '(max-min)/(n-1)'), grid.g(i).v, mn + i * sp_exp, seed, bound=bound))
+    mfx = [{'name': F, 'file': rel, 'ast_nodes': rvc.node_count(fn)}]
+    for o in obs:
+        o['functions'] = mfx
+    return obs
+
+
 def collect(obs):
     seen = set(f['name'] for f in META['functions'])
     for o in obs:
@@ -430,7 +528,7 @@ def collect(obs):
 
 def jobs_rvc(tier, seed):
     Ns = (3, 4, 5) if tier == 'quick' else (3, 4, 5, 6)
-    jobs = [(job_cubic_interval, (seed,)), (job_cubic_fit, (seed,)), (job_akima, (seed,)), (job_linspline, (seed,))]
+    jobs = [(job_cubic_interval, (seed,)), (job_cubic_fit, (seed,)), (job_akima, (seed,)), (job_linspline, (seed,)), (job_smooth, (seed,))]
     for N in Ns:
         for bc in (0, 1):
             jobs.append((job_cubic_interpolate, (seed, N, bc)))
@@ -438,7 +536,7 @@ def jobs_rvc(tier, seed):
 
 
 def run(tier, seed, only=None):
-    jobs = jobs_rvc(tier, seed) + [(job_getinterval, ('unbounded',)), (job_getinterval, ('twin',))]
+    jobs = jobs_rvc(tier, seed) + [(job_getinterval, ('unbounded',)), (job_getinterval, ('twin',)), (job_grid, ('spline', seed)), (job_grid, ('table', seed))]
     if only:
         jobs = [j for j in jobs if re.search(only, j[0].__name__ + str(j[1]))]
     obs = core.pmap(jobs)
